@@ -13,7 +13,7 @@ func verifAcquired(a action, ok bool)                     {}
 func verifStart(a action)                                 {}
 func verifEnd(a action)                                   {}
 func verifRelease(a action)                               {}
-func verifDecBegin(a action)                              {}
+func verifDecBegin(a, t action)                           {}
 func verifDecEnd(a, t action, last bool)                  {}
 func verifEnqueue(a, t action)                            {}
 func verifClose(a action)                                 {}
